@@ -381,7 +381,7 @@ func (p *parser) parseExpr(minPrec int) (Expr, error) {
 }
 
 func (p *parser) parseUnary() (Expr, error) {
-	if p.isOp("!") || p.isOp("-") {
+	if p.isOp("!") || p.isOp("-") || p.isOp("*") {
 		op := p.adv().s
 		x, err := p.parseUnary()
 		if err != nil {
@@ -942,7 +942,7 @@ func (p *parser) parseFuncContract() (*FuncContract, error) {
 		case "modifies":
 			curLoop = nil
 			for {
-				if p.isOp("*") && !(p.toks[p.p+1].k == "id" && !clauseKeywords[p.toks[p.p+1].s] && !itemKeywords[p.toks[p.p+1].s]) {
+				if p.isOp("*") && !(p.toks[p.p+1].k == "id" && !clauseKeywords[p.toks[p.p+1].s] && !itemKeywords[p.toks[p.p+1].s]) && !(p.toks[p.p+1].k == "op" && p.toks[p.p+1].s == "[") {
 					p.adv()
 					fc.ModAll = true
 				} else {
